@@ -693,6 +693,17 @@ func normalizePackage(pk *packages.Package, known map[string]bool, srcOf func(st
 					a, b := r.from-off(s.Pos()), r.to-off(s.Pos())
 					text = text[:a] + r.text + text[b:]
 				}
+				switch d := s.(type) {
+				case *ast.DeclStmt:
+					// declarations stay in the enclosing scope (the temporaries have unique names)
+					edits = append(edits, edit{off(s.Pos()), off(s.End()), pre.String() + text + "\n"})
+					return
+				case *ast.AssignStmt:
+					if d.Tok == token.DEFINE {
+						edits = append(edits, edit{off(s.Pos()), off(s.End()), pre.String() + text + "\n"})
+						return
+					}
+				}
 				edits = append(edits, edit{off(s.Pos()), off(s.End()), "{\n" + pre.String() + text + "\n}"})
 			}
 			visitStmt = func(s ast.Stmt, inLit bool) {
@@ -758,6 +769,20 @@ func normalizePackage(pk *packages.Package, known map[string]bool, srcOf func(st
 						}
 					}
 					hoist(s, x.Rhs)
+				case *ast.SendStmt:
+					// the channel operand is evaluated first: only hoist when it cannot be affected
+					if id, isId := x.Chan.(*ast.Ident); isId {
+						if v, isVar := in.pk.TypesInfo.Uses[id].(*types.Var); isVar && v.Parent() != in.pk.Types.Scope() {
+							hoist(s, []ast.Expr{x.Value})
+						}
+					}
+				case *ast.DeclStmt:
+					if gd, ok := x.Decl.(*ast.GenDecl); ok && gd.Tok == token.VAR && len(gd.Specs) == 1 {
+						if vs, ok := gd.Specs[0].(*ast.ValueSpec); ok && len(vs.Values) > 0 {
+							hoist(s, vs.Values)
+						}
+					}
+				case *ast.IncDecStmt:
 				case *ast.GoStmt:
 					// arguments are evaluated by the go statement itself: helper calls among them come first
 					hoist(s, x.Call.Args)
@@ -775,7 +800,7 @@ func normalizePackage(pk *packages.Package, known map[string]bool, srcOf func(st
 					}})
 				case *ast.IfStmt:
 					if x.Init == nil {
-						if txt, ok := in.inlineIfCond(x, src, off); ok && !covered(off(x.Pos()), off(x.End())) && !isElseBranch(src, off(x.Pos())) {
+						if txt, ok := in.inlineIfCond(x, src, off); ok && !covered(off(x.Pos()), off(x.End())) {
 							edits = append(edits, edit{off(x.Pos()), off(x.End()), txt})
 							in.log = append(in.log, fmt.Sprintf("%s: inlined a predicate call into the branches of an if in %s", filepath.Base(fname), caller.Name.Name))
 							return
@@ -1328,34 +1353,155 @@ func hasUnlabeledBreak(list []ast.Stmt) bool {
 	return found
 }
 
-// inlineIfCond handles `if f(args) {A} else {B}` and `if !f(args) ...` for a
-// helper returning one bool: the helper's body is spliced in and every
-// `return e` selects the branch directly (no boolean temporary), so the
-// comparisons inside the helper dominate the branch bodies.
+// Lowering of conditions that contain helper predicates.  `if C {T} else {E}`
+// becomes pure control flow,
+//
+//	{ kxEnd: switch { default:
+//	      kxF: switch { default:
+//	          <C evaluated by jumps: false -> break kxF>
+//	          T
+//	          break kxEnd }
+//	      E } }
+//
+// where &&, || and ! are lowered structurally (short-circuit order kept) and a
+// call of a helper predicate is replaced by its body with every `return e`
+// lowered in turn.  No boolean temporary is introduced, so the comparisons
+// inside the helper dominate the branch bodies exactly as if they had been
+// written in the condition.
+
+type condJump struct {
+	fall  bool
+	label string
+}
+
+func (j condJump) stmt() string { return "break " + j.label }
+
+func (in *inliner) newLabel(prefix string) string {
+	in.counter++
+	return fmt.Sprintf("%s%d", prefix, in.counter)
+}
+
+// hasHelperCall: e contains a call of an inlinable helper.
+func (in *inliner) hasHelperCall(e ast.Expr) bool {
+	found := false
+	ast.Inspect(e, func(n ast.Node) bool {
+		if _, isLit := n.(*ast.FuncLit); isLit {
+			return false
+		}
+		if c, ok := n.(*ast.CallExpr); ok {
+			if fd, _, _ := in.calleeOf(c); fd != nil {
+				found = true
+			}
+		}
+		return true
+	})
+	return found
+}
+
+// genCond emits statements that evaluate e and leave through t (true) or f
+// (false); typed: e belongs to the type-checked package (helper calls are
+// recognised), otherwise only the boolean structure is lowered.
+func (in *inliner) genCond(e ast.Expr, t, f condJump, typed bool, text func(ast.Node) string) (string, bool) {
+	switch x := e.(type) {
+	case *ast.ParenExpr:
+		return in.genCond(x.X, t, f, typed, text)
+	case *ast.UnaryExpr:
+		if x.Op == token.NOT {
+			return in.genCond(x.X, f, t, typed, text)
+		}
+	case *ast.BinaryExpr:
+		switch x.Op {
+		case token.LAND:
+			if f.fall {
+				s := in.newLabel("kxS")
+				a, ok1 := in.genCond(x.X, condJump{fall: true}, condJump{label: s}, typed, text)
+				b, ok2 := in.genCond(x.Y, t, condJump{label: s}, typed, text)
+				if !ok1 || !ok2 {
+					return "", false
+				}
+				return s + ":\nswitch {\ndefault:\n" + a + b + "}\n", true
+			}
+			a, ok1 := in.genCond(x.X, condJump{fall: true}, f, typed, text)
+			b, ok2 := in.genCond(x.Y, t, f, typed, text)
+			return a + b, ok1 && ok2
+		case token.LOR:
+			if t.fall {
+				s := in.newLabel("kxS")
+				a, ok1 := in.genCond(x.X, condJump{label: s}, condJump{fall: true}, typed, text)
+				b, ok2 := in.genCond(x.Y, condJump{label: s}, f, typed, text)
+				if !ok1 || !ok2 {
+					return "", false
+				}
+				return s + ":\nswitch {\ndefault:\n" + a + b + "}\n", true
+			}
+			a, ok1 := in.genCond(x.X, t, condJump{fall: true}, typed, text)
+			b, ok2 := in.genCond(x.Y, t, f, typed, text)
+			return a + b, ok1 && ok2
+		}
+	case *ast.CallExpr:
+		if typed {
+			if fd, _, recv := in.calleeOf(x); fd != nil {
+				if bodyHas(fd.Body, isDefer) {
+					return "", false
+				}
+				_, results, _ := in.params(fd)
+				if len(results) != 1 || results[0].typ != "bool" {
+					return "", false
+				}
+				okAll := true
+				blk, ok := in.inlineBlockWith(fd, recv, x.Args, func(label string, named []string) func([]string) string {
+					tt, ff := t, f
+					if tt.fall {
+						tt = condJump{label: label}
+					}
+					if ff.fall {
+						ff = condJump{label: label}
+					}
+					return func(rs []string) string {
+						if len(rs) != 1 {
+							okAll = false
+							return "kxINLINE_ERROR"
+						}
+						re, err := parser.ParseExpr(rs[0])
+						if err != nil {
+							okAll = false
+							return "kxINLINE_ERROR"
+						}
+						fs := token.NewFileSet()
+						out, ok := in.genCond(re, tt, ff, false, func(n ast.Node) string { return exprString(fs, n) })
+						if !ok {
+							okAll = false
+							return "kxINLINE_ERROR"
+						}
+						return out
+					}
+				})
+				if !ok || !okAll {
+					return "", false
+				}
+				return blk, true
+			}
+		}
+	}
+	// atom
+	if typed && in.hasHelperCall(e) {
+		return "", false // a helper call in a non-boolean position of the condition: left to the hoisting rule
+	}
+	txt := text(e)
+	switch {
+	case t.fall && f.fall:
+		return "", false
+	case t.fall:
+		return "if !(" + txt + ") {\n" + f.stmt() + "\n}\n", true
+	case f.fall:
+		return "if " + txt + " {\n" + t.stmt() + "\n}\n", true
+	}
+	return "if " + txt + " {\n" + t.stmt() + "\n}\n" + f.stmt() + "\n", true
+}
+
+// inlineIfCond lowers an if statement whose condition calls helper predicates.
 func (in *inliner) inlineIfCond(x *ast.IfStmt, src []byte, off func(token.Pos) int) (string, bool) {
-	cond := x.Cond
-	neg := false
-	for {
-		if pe, ok := cond.(*ast.ParenExpr); ok {
-			cond = pe.X
-			continue
-		}
-		if ue, ok := cond.(*ast.UnaryExpr); ok && ue.Op == token.NOT {
-			cond, neg = ue.X, !neg
-			continue
-		}
-		break
-	}
-	call, ok := cond.(*ast.CallExpr)
-	if !ok {
-		return "", false
-	}
-	fd, _, recv := in.calleeOf(call)
-	if fd == nil || bodyHas(fd.Body, isDefer) {
-		return "", false
-	}
-	_, results, _ := in.params(fd)
-	if len(results) != 1 || results[0].typ != "bool" {
+	if !in.hasHelperCall(x.Cond) {
 		return "", false
 	}
 	if hasUnlabeledBreak(x.Body.List) {
@@ -1377,31 +1523,14 @@ func (in *inliner) inlineIfCond(x *ast.IfStmt, src []byte, off func(token.Pos) i
 			elseTxt = string(src[off(e.Pos()):off(e.End())])
 		}
 	}
-	if neg {
-		thenTxt, elseTxt = elseTxt, thenTxt
+	end, fl := in.newLabel("kxE"), in.newLabel("kxF")
+	cond, ok := in.genCond(x.Cond, condJump{fall: true}, condJump{label: fl}, true, func(n ast.Node) string { return string(src[off(n.Pos()):off(n.End())]) })
+	if !ok {
+		return "", false
 	}
-	// the branch texts are duplicated at every return of the helper: helper calls inside them are handled in the next round
-	blk, ok := in.inlineBlockWith(fd, recv, call.Args, func(label string, named []string) func([]string) string {
-		return func(rs []string) string {
-			e := ""
-			switch {
-			case len(rs) == 1:
-				e = rs[0]
-			case len(rs) == 0 && len(named) == 1:
-				e = named[0]
-			default:
-				return "kxINLINE_ERROR"
-			}
-			switch strings.TrimSpace(e) {
-			case "true":
-				return "{\n" + thenTxt + "\n}\nbreak " + label
-			case "false":
-				return "{\n" + elseTxt + "\n}\nbreak " + label
-			}
-			return "if " + e + " {\n" + thenTxt + "\n} else {\n" + elseTxt + "\n}\nbreak " + label
-		}
-	})
-	return blk, ok
+	var sb strings.Builder
+	fmt.Fprintf(&sb, "{\n%s:\nswitch {\ndefault:\n%s:\nswitch {\ndefault:\n%s{\n%s\n}\nbreak %s\n}\n{\n%s\n}\n}\n}", end, fl, cond, thenTxt, end, elseTxt)
+	return sb.String(), true
 }
 
 // inlineBlockWith is inlineBlock with a caller-supplied treatment of returns;
@@ -1458,8 +1587,13 @@ func (in *inliner) inlineBlockWith(fd *ast.FuncDecl, recv ast.Expr, args []ast.E
 	}
 	label := fmt.Sprintf("kxL%d", id)
 	body := in.renderBody(fd, ren, mk(label, named), fmt.Sprintf("_kx%d", id))
-	if body == "" || strings.Contains(body, "kxINLINE_ERROR") || !strings.Contains(body, "break "+label) {
+	if body == "" || strings.Contains(body, "kxINLINE_ERROR") {
 		return "", false
+	}
+	if !strings.Contains(body, "break "+label+"\n") {
+		// every return jumps elsewhere: no label needed (an unused label does not compile)
+		fmt.Fprintf(&sb, "%s\n}\n}\n", body)
+		return sb.String(), true
 	}
 	fmt.Fprintf(&sb, "%s:\nswitch {\ndefault:\n%s\n}\n}\n}\n", label, body)
 	return sb.String(), true
